@@ -31,6 +31,8 @@ GRID_VARIANTS = {
     'month_d': ('MS', 'd', None, '2021-01-01'),                # 31, 28, 31, 30 ... days
     'hour_cet_dst': ('h', 'h', 'CET', '2021-03-28'),           # local 02:00 does not exist
     'hour_d_utc': ('h', 'd', 'UTC', '2021-01-04'),
+    'day_d_leap': ('d', 'd', None, '2024-02-27'),              # contains 29 February (discounting: 365 days a year by convention)
+    'month_d_yearend': ('MS', 'd', None, '2023-11-01'),        # crosses a year end into a leap year
 }
 _OVERRIDE = [None]
 
